@@ -2,6 +2,7 @@
 
 import contextlib
 import inspect
+import itertools
 import json
 import locale
 import os
@@ -3040,22 +3041,19 @@ class Env(cabc.MutableMapping):
         )
 
     def __iter__(self):
-        # Compute the set of keys masked by DELETE_VAR. An overlay layer
-        # may mask either an underlying overlay or `_d`/defaults; `_d`
-        # itself may also hold the sentinel (set via swap thread-local).
-        masked = set()
-        for overlay in reversed(self._overlay_stack):
-            for k, v in overlay.items():
-                if v is DELETE_VAR and k not in masked:
-                    masked.add(k)
-        for key in self.rawkeys():
-            if not isinstance(key, str):
+        # Yield exactly the keys for which ``key in self`` holds, so that
+        # iteration agrees with ``[]``/``in``/``get`` inside scopes: a key
+        # defined only by an overlay is listed, a key masked by DELETE_VAR
+        # (in an overlay or, via swap, in `_d`) is not - unless a more
+        # recent overlay layer gives it a value again.
+        seen = set()
+        overlay_keys = [k for overlay in self._overlay_stack for k in overlay]
+        for key in itertools.chain(self.rawkeys(), overlay_keys):
+            if not isinstance(key, str) or key in seen:
                 continue
-            if key in masked:
-                continue
-            if key in self._d and self._d[key] is DELETE_VAR:
-                continue
-            yield key
+            seen.add(key)
+            if key in self:
+                yield key
 
     def __contains__(self, item):
         for overlay in reversed(self._overlay_stack):
